@@ -2026,7 +2026,7 @@ pub fn run(ctx: &Ctx) -> Report {
     rep.assume("lengths stay far below the 4 GB limit: the overflow panics are not exercised");
     rep.assume("which tendrils share a buffer is read from is_shared_with / data pointers (not asserted), since sharing is an undocumented optimisation");
     let q = ctx.tier == Tier::Quick;
-    let scale = if q { 1 } else { 50 };
+    let scale = if q { 1 } else { 20 };
     rep.need(L_SHARED, 50_000 * scale);
     rep.need(L_HEAP, 40_000 * scale);
     rep.need(L_INLINE, 30_000 * scale);
@@ -2041,7 +2041,7 @@ pub fn run(ctx: &Ctx) -> Report {
     let out = if q {
         run_random(ctx.seed, 400_000, 1000, decode, |c, st| oracle(c, st, tol))
     } else {
-        run_random(ctx.seed, 20_000_000, 2400, |s: &mut Src| decode_n(s, 200), |c, st| oracle(c, st, tol))
+        run_random(ctx.seed, 5_000_000, 2400, |s: &mut Src| decode_n(s, 200), |c, st| oracle(c, st, tol))
     };
     rep.absorb(out);
     rep
